@@ -8,7 +8,7 @@ E1 = {
     "C10": (["contracts.c10"], ["StructureScore.score"]),
     "C11": (["contracts.c11"], ["HillClimbSearch._legal_operations"]),
     "C13": (["contracts.c13"], ["DAG.do", "CausalInference.is_valid_backdoor_adjustment_set"]),
-    "C14": (["contracts.c14"], ["BayesianNetwork.to_markov_model"]),
+    "C14": (["contracts.c14"], ["BayesianNetwork.to_markov_model", "UndirectedGraph.is_clique"]),
     "C15": (["contracts.c15"], ["BayesianNetwork.add_edge", "BayesianNetwork.remove_node", "BayesianNetwork.copy", "MarkovNetwork.add_edge"]),
     "C18": (["contracts.c18"], ["Independencies.closure.<locals>.sg1", "Independencies.closure.<locals>.sg2",
                                  "Independencies.closure.<locals>.sg3", "IndependenceAssertion.__eq__",
